@@ -95,7 +95,7 @@ class ProjectSettings:
 
         """
 
-        return np.linspace(self.sim_start, self.sim_end, int((self.sim_end - self.sim_start) / self.sim_dt) + 1)
+        return np.linspace(self.sim_start, self.sim_end, int(round((self.sim_end - self.sim_start) / self.sim_dt)) + 1)  # sim_end is a whole number of steps after sim_start, so round (truncation drops a step if the quotient is 116.99999...)
 
     def update_time_vector(self, start: float = None, end: float = None, dt: float = None) -> None:
         """
